@@ -70,7 +70,7 @@ const (
 	vC17CatchUpBound = 30 * time.Minute
 	vC17SlackBase    = 2 * time.Minute
 	vC17BatchCap     = 5 * time.Minute // measured batch time never widens the slack by more
-	vC17DeadFailLat   = 5 * time.Second        // an unreachable recipient fails after a dial timeout
+	vC17DeadFailLat   = 2 * time.Second        // an unreachable recipient fails after a dial timeout
 	vC17OutageFailLat = 200 * time.Millisecond // lookups and RPCs fail quickly while the network is down
 	vC17CapSig       = "explore/lookup-cap" // label of misses that follow a capped exploration (observation, no verdict)
 	vC17MaxClustered = 600 // largest clustered swarm (70 % under one prefix) generated
@@ -810,6 +810,7 @@ func (s *vC17Sim) evaluate(end time.Duration, windows bool) vC17Verdict {
 	W := vC17Interval + vC17MaxDelay + slack
 	c.Set("slack", slack.String())
 	c.Set("window", W.String())
+	c.ObsMax("case_wall_ms_observation_only", int(time.Since(vC17CaseStart)/time.Millisecond))
 	c.Obs("add_provider_rpcs", s.nSend)
 	c.Obs("add_provider_failed_dead_or_offline", s.nSendFail)
 	c.Obs("get_closest_peers_calls", s.nGCP)
@@ -1061,6 +1062,12 @@ func vC17RandParams(c *vh.Case, minN, maxN, maxKeys int) vC17Params {
 	if c.R.Intn(3) == 0 {
 		p.routerLat, p.sendLat = time.Duration(20+c.R.Intn(80))*time.Millisecond, time.Duration(2+c.R.Intn(18))*time.Millisecond
 	}
+	if (p.deadPct > 0 || p.sendLat > 0) && p.workers.conns < 8 {
+		// "as long as workers keep up": with recipients that take time (latency, dial timeouts of dead
+		// peers) a worker limited to 1-5 connections needs longer than the provide bound for a few
+		// hundred keys; such configurations are generated with instant, healthy recipients only
+		p.workers.conns = 20
+	}
 	return p
 }
 
@@ -1137,7 +1144,10 @@ func vC17SetupLog() {
 	})
 }
 
+var vC17CaseStart time.Time // real time at which the case in flight began (observation only)
+
 func vC17SelfCheck(c *vh.Case) bool {
+	vC17CaseStart = time.Now()
 	vC17SetupLog()
 	p := vC17Pool()
 	if !p.selfOK {
